@@ -42,9 +42,9 @@ def _dedupe(items):
 def design(ctx):
     q = ctx.quick
     notes = {}
-    for mode in ("pattern", "pair", "collect"):
-        r = ctx.tlc("GlobLaws", "MC_GlobLaws_%s.cfg" % (mode + ("_q" if q and mode == "pair" else "")), timeout=900)
-        notes["laws_" + mode] = dict(distinct=r.distinct, wall=round(r.wall, 1))
+    for cfg in (["pattern", "pair_q", "collect"] if q else ["pattern_t", "pair", "collect"]):
+        r = ctx.tlc("GlobLaws", "MC_GlobLaws_%s.cfg" % cfg, timeout=1800)
+        notes["laws_" + cfg] = dict(distinct=r.distinct, wall=round(r.wall, 1))
     machine_cfgs = ["MC_Glob_safety_q.cfg", "MC_Glob_deep.cfg"] if q else \
         ["MC_Glob_safety_t.cfg", "MC_Glob_deep.cfg", "MC_Glob_three.cfg", "MC_Glob_live.cfg"]
     for cfg in machine_cfgs:
@@ -73,6 +73,8 @@ def generate_glob(ctx):
         ncombo += len(got)
         scns += got
     counts["combo(random, seeded)"] = ncombo
+    scns = _dedupe(scns)
+    counts["distinct"] = len(scns)
     ctx.notes["generated"] = counts
     return scns
 
@@ -384,7 +386,7 @@ def run(ctx):
     # 2./3. spec -> code
     scns = generate_glob(ctx)
     ctx.log("generated %d glob scenarios" % len(scns))
-    summ = replay_glob(ctx, binp, scns)
+    replay_glob(ctx, binp, scns)
     step = max(1, len(scns) // 3)
     for s in scns[::step][:3]:
         ctx.sample(s, limit=8)
